@@ -89,11 +89,16 @@ func TestC20_EonKeysPublished(t *testing.T) {
 			published = append(published, pubKeyRec{k.Eon, k.ActivationBlock, k.KeyperConfigIndex, string(k.PublicKey)})
 			return nil
 		}
+		// built the way a keyper flavour builds it: keyper.New with its options, then the handler Start derives
 		var h *keyper.VerifEonPubKeyHandler
+		var herr error
 		if broadcast {
-			h = keyper.VerifNewEonPubKeyHandler(cfg, n.Pool, msging, nil, true)
+			h, herr = keyper.VerifEonPubKeyHandlerFromOptions(cfg, n.Pool, keyper.WithMessaging(msging))
 		} else {
-			h = keyper.VerifNewEonPubKeyHandler(cfg, n.Pool, msging, handler, false)
+			h, herr = keyper.VerifEonPubKeyHandlerFromOptions(cfg, n.Pool, keyper.WithMessaging(msging), keyper.NoBroadcastEonPublicKey(), keyper.WithEonPublicKeyHandler(handler))
+		}
+		if herr != nil {
+			rt.Fatalf("handler from options: %v", herr)
 		}
 		order := rapid.Permutation(func() []int {
 			r := make([]int, len(eons))
